@@ -64,6 +64,15 @@ def run(tier, seed):
         n1, s1 = xc.validate(sc1, wd, "mdl", rep, 8, owner=PROP)
         q = tier == "quick"
         sc2 = render_scenarios(rng, 200 if q else 4000)
+        sd = [s for s in c11.stack_discipline_scenarios(rng) if s["id"].endswith("s0")]      # the hand-written record-vs-stack programs, by steps
+        for s in sd:
+            body = []
+            for a in s["actions"]:
+                body.append(a)
+                if a.get("op") == "step":
+                    body.append({"op": rng.choice(["trace", "call_stack", "to_string"])})
+            s["actions"] = body
+        sc2 += sd
         n2, s2 = xc.validate(sc2, wd, "rnd", rep, 8 if q else 14, owner=PROP)
         pst = pc.judge_many(rep, 300 if q else 20000, 12, seed + 950, wd, "pg", PROG_OWNS, jobs=8 if q else 14)
         pc.cov(rep, pst)
